@@ -13,6 +13,7 @@ pub mod c10;
 pub mod fam;
 pub mod c11;
 pub mod c12;
+#[cfg(feature = "std")]
 pub mod c13;
 pub mod c14;
 pub mod c15;
@@ -28,6 +29,7 @@ pub fn run_property(ctx: &Ctx) -> i32 {
         "C10" => c10::run(ctx),
         "C11" => c11::run(ctx),
         "C12" => c12::run(ctx),
+        #[cfg(feature = "std")]
         "C13" => c13::run(ctx),
         "C14" => c14::run(ctx),
         "C15" => c15::run(ctx),
@@ -54,7 +56,9 @@ pub fn decode_fuzz(target: &str, bytes: &[u8]) -> Option<(&'static str, serde_js
         "callback_iter" => ("iterators", j(d::<c15::ItCase>(bytes))?),
         "waker_ops" => ("waker-histories", j(d::<c19::Case>(bytes))?),
         "layout_views" => ("views", j(d::<c16::Case>(bytes))?),
+        #[cfg(feature = "std")]
         "int_result" => ("encode-decode", j(d::<c13::Case>(bytes))?),
+        #[cfg(feature = "std")]
         "int_result_gen" => ("generated", j(d::<c13::wrapped::WCase>(bytes))?),
         "lifecycle" => ("boxes", j(d::<boxes::Case>(bytes))?),
         _ => return None,
